@@ -15,8 +15,7 @@ Piece(bp, t) ==
        ELSE CHOOSE i \in 1..n : RLe(bp[i], t) /\ RLt(t, bp[i + 1])
 
 \* coefficient polynomial of piece i (1-based), coordinate col, nc coefficients per piece
-PiecePoly(C, nc, i, col) == [k \in 1..nc |-> C[(i - 1) * nc + k][col]]
-
+PiecePoly(C, nc, i, col) == TLCEval([k \in 1..nc |-> C[(i - 1) * nc + k][col]])
 \* exact k-th derivative at global time t (all coordinates); zero when k >= nc
 EvalAt(bp, C, nc, t, k) ==
     LET i == Piece(bp, t)
